@@ -153,6 +153,7 @@ def master(args):
             if k not in seen:
                 seen.add(k)
                 print("  monitor=%s witness=%s" % (k, json.dumps(w)[:600]))
+        print("  fired monitors: " + ", ".join("%s x%d" % kv for kv in sorted(m["fired_by_monitor"].items())))
         if len(new) > len(replay_paths):
             print("  (+%d further witnesses of %d fired)" % (len(new) - len(replay_paths), m["nfired"]))
         return 1
